@@ -532,6 +532,10 @@ let dispatch (cmd : string) (args : sx list) : sx =
       let ind = (match indent with Str i -> Some (bytes_of_string i) | _ -> None) in
       let p = { pp_indent = ind; pp_sort_keys = (sort = "true"); pp_sep_space = true } in
       L [Atom "S"; Str (string_of_bytes (yaml_write p O (val_of_sx a)))]
+  | "lex", [Str text] ->
+      (match lex (bytes_of_string text) with
+       | Some ts -> L [Atom "ok"; L (List.map (fun t -> Str (string_of_bytes t)) ts)]
+       | None -> L [Atom "error"])
   | "parse", [Str text] ->
       let (vs, e) = parse_many (nat_of_int (String.length text + 1)) (bytes_of_string text) in
       L [Atom "out"; L (List.map sx_of_val vs); (match e with None -> Atom "end" | Some _ -> L [Atom "errc"; Atom "parse"])]
